@@ -320,7 +320,12 @@ where H: ElementHasher<BaseField = B> + Send + Sync {
             winter_utils::Serializable::write_into(&p2.fri_proof, &mut fa);
             winter_utils::Serializable::write_into(&c.proof.fri_proof, &mut fb);
             let diff: Vec<usize> = (0..fa.len().min(fb.len())).filter(|&i| fa[i] != fb[i]).collect();
-            if fa.len() == fb.len() && diff.len() == 1 { st.same_content += 1; if std::env::var("C03_SHOW_SAME").is_ok() { eprintln!("partition-count-only {}: {}", class, what); } return; }
+            // ... and only when, under the documented layout, the altered count maps EVERY queried position of EVERY layer
+            // to the same committed leaf as the original count (the property's exclusion); otherwise the field edit is
+            // an ordinary content change and must be rejected
+            if fa.len() == fb.len() && diff.len() == 1 && partition_layout_same::<B, H>(c, c.proof.fri_proof.num_partitions(), p2.fri_proof.num_partitions()) {
+                st.same_content += 1; if std::env::var("C03_SHOW_SAME").is_ok() { eprintln!("partition-count-only {}: {}", class, what); } return;
+            }
         }
     }
     let acc = AcceptableOptions::OptionSet(vec![c.opts.clone()]);
@@ -362,6 +367,33 @@ where H: ElementHasher<BaseField = B> + Send + Sync {
     let mut p: Vec<usize> = inner.split(',').filter_map(|s| s.trim().parse().ok()).collect();
     p.sort_unstable(); p.dedup();
     Some(p)
+}
+
+/// documented layout of a partitioned FRI layer commitment: leaf index of folded position p is
+/// (p mod np) * (target / np) + p div np; one partition = evaluation-domain order
+fn ref_partition_index(p: usize, target: usize, np: usize) -> usize {
+    if np == 1 { return p; }
+    (p % np).wrapping_mul(target / np).wrapping_add(p / np)
+}
+
+thread_local! { static QPOS: RefCell<(String, Option<Vec<usize>>)> = RefCell::new((String::new(), None)); }
+
+/// do the two partition counts send every queried position of every FRI layer to the same leaf?
+fn partition_layout_same<B: Fld, H>(c: &Case<B>, np_a: usize, np_b: usize) -> bool
+where H: ElementHasher<BaseField = B> + Send + Sync {
+    let key = format!("{}#{}", c.desc, c.bytes.len());
+    let cached = QPOS.with(|q| { let q = q.borrow(); if q.0 == key { Some(q.1.clone()) } else { None } });
+    let pos = match cached { Some(p) => p, None => { let p = query_positions::<B, H>(c); QPOS.with(|q| *q.borrow_mut() = (key, p.clone())); p } };
+    let Some(mut pos) = pos else { return false };
+    let fold = c.opts.to_fri_options().folding_factor();
+    let mut domain = c.proof.context.trace_info().length() * c.opts.blowup_factor();
+    for _ in 0..c.proof.fri_proof.num_layers() {
+        let folded = fold_pos(&pos, domain, fold);
+        let target = domain / fold;
+        if folded.iter().any(|&p| ref_partition_index(p, target, np_a) != ref_partition_index(p, target, np_b)) { return false; }
+        pos = folded; domain = target;
+    }
+    true
 }
 
 fn fold_pos(p: &[usize], domain: usize, fold: usize) -> Vec<usize> {
